@@ -62,7 +62,7 @@ def obligations(tier, seed):
                 add(op=o, sv=sv, lens=(0, 9, 1, 33, 1), cvals={'2': [1], '4': [1]}); continue
             shapes = []
             for (m, n) in ((0, 0), (0, 1), (1, 1), (1, 2), (2, 2)) + (((0, 2), (1, 3), (2, 3), (3, 3)) if tier != 'quick' else ()):
-                for sl in (((0, 9) if m < 2 else (0, 1)) if tier == 'quick' else (0, 1, 9)):
+                for sl in (((0, 9) if m < 2 else (0, 1)) if tier == 'quick' else ((0, 1, 9) if m < 3 else (0, 1))):          # 3-of-3 with three 9-byte symbolic signatures: > 1800 s under load
                     for dl in (0, 1):
                         lens = tuple([dl] + [sl] * m + [1] + [33] * n + [1])
                         cv = {str(1 + m): [m] if m else [], str(2 + m + n): [n] if n else []}
